@@ -9,6 +9,7 @@ import (
 	"sort"
 
 	enc "github.com/DataDog/sketches-go/ddsketch/encoding"
+	"github.com/DataDog/sketches-go/ddsketch/pb/sketchpb"
 	"github.com/DataDog/sketches-go/ddsketch/store"
 
 	"verif/harness/internal/core"
@@ -448,6 +449,38 @@ func (s *MonStore) ProtoInto(target gen.StoreSpec, name string) *MonStore {
 	t.M.Merge(s.M)
 	s.C.Count("event.MergeWithProto", 1)
 	return t
+}
+
+// KeptProto is a protobuf message taken from a store and kept while the store goes on being used: it is a
+// value of its own and must still describe the content the store had when it was taken.
+type KeptProto struct {
+	PB   *sketchpb.Store
+	M    *model.Bins // content at the time ToProto was called (no folding: the message is not bounded)
+	From string
+}
+
+// ProtoKeep calls ToProto and keeps the message for later.
+func (s *MonStore) ProtoKeep() *KeptProto {
+	s.C.Logf("pb := %s.ToProto()   (kept)", s.Name)
+	k := &KeptProto{From: s.Name, M: model.NewBins()}
+	s.around("ToProto", true, func() { k.PB = s.St.ToProto() })
+	for idx, w := range s.M.W {
+		k.M.Add(idx, w)
+	}
+	return k
+}
+
+// MergeKeptProto merges a message taken earlier (possibly from this very store) into the store.
+func (s *MonStore) MergeKeptProto(k *KeptProto) {
+	s.C.Logf("MergeWithProto(%s, pb kept from %s)", s.Name, k.From)
+	s.around("MergeWithProto(kept)", false, func() {
+		if bp, ok := s.St.(*store.BufferedPaginatedStore); ok && s.C.R.Bool() {
+			bp.MergeWithProto(k.PB)
+		} else {
+			store.MergeWithProto(s.St, k.PB)
+		}
+	})
+	s.M.Merge(k.M)
 }
 
 func (s *MonStore) Check(o CheckOpts) {
